@@ -153,7 +153,7 @@ def py_directive(d):
 
 # ------------------------------------------------------------------ deviation classes (from the INPUT only)
 CLASS_ORDER = ["negative-star-precision", "minus-drops-precision", "digit-buffer-32", "hash-takes-digits", "hash-octal-precision",
-               "width-numeral-wraps", "lc-clobbers-dest", "lc-nul", "ls-empty-fails", "s-precision0-precheck"]
+               "width-numeral-wraps", "lc-clobbers-dest", "lc-nul", "s-precision0-precheck"]
 
 
 def dev_classes(d, dmax=None, idx=None):
@@ -197,8 +197,6 @@ def dev_classes(d, dmax=None, idx=None):
             cl.append("hash-octal-precision")
     if c == "c" and d.ln == "l":
         cl.append("lc-nul" if d.val == 0 else "lc-clobbers-dest")
-    if c == "s" and d.ln == "l" and d.val is not None and (len(d.val) == 0 or (d.prec is not None and False)):
-        cl.append("ls-empty-fails")
     if c == "s" and d.ln == "" and d.val is not None and d.prec is not None and p == 0 and len(d.val) > 0:
         cl.append("s-precision0-precheck")
     return [x for x in CLASS_ORDER if x in cl]
@@ -206,11 +204,12 @@ def dev_classes(d, dmax=None, idx=None):
 
 # ------------------------------------------------------------------ cases
 class Case:
-    __slots__ = ("fn", "dmax", "items", "origin", "slack", "key")
+    __slots__ = ("fn", "dmax", "items", "origin", "slack", "key", "noref")
 
     def __init__(self, fn, dmax, items, origin, slack=1):
         self.fn, self.dmax, self.items, self.origin, self.slack = fn, dmax, items, origin, slack
         self.key = None
+        self.noref = False
 
     def fmt(self):
         return b"".join(i.text().encode("latin-1") if isinstance(i, D) else bytes(i).replace(b"%", b"%%") for i in self.items)
@@ -223,7 +222,7 @@ class Case:
         return a
 
     def hline(self):
-        return "fn=%s dmax=%d fmt=%s args=%s" % (self.fn, self.dmax, bhex(self.fmt()), ",".join(self.args()) or "-")
+        return "fn=%s dmax=%d fmt=%s args=%s%s" % (self.fn, self.dmax, bhex(self.fmt()), ",".join(self.args()) or "-", " noref=1" if self.noref else "")
 
     def mline(self):
         return "pf=%s slack=%d dmax=%d fmt=%s args=%s" % (self.fn, self.slack, self.dmax, bhex(self.fmt()), ",".join(self.args()) or "-")
@@ -340,9 +339,15 @@ def gen_float(rng, tier):
                     for p in precs:
                         n += 1
                         vs = FVALS if tier != "quick" else [FVALS[(n * 5 + j * 11) % len(FVALS)] for j in range(2)]
+                        if (conv in "aA" or ln == "L") and (isinstance(w, tuple) or isinstance(p, tuple)):
+                            continue        # `*` with a directive that is handed to libc: see the star-handoff cases below
                         for v in vs:
                             bits = ldbits(v) if ln == "L" else dbits(v)
                             out.append(Case("sprintf_s", 512, [b"[", D(fl, w, p, ln, conv, bits), b"]"], "float-grid"))
+    # %a / %L? directives are handed to libc snprintf as a format substring WITHOUT their `*` arguments
+    out.append(Case("sprintf_s", 512, [b"[", D("", ("*", 12), None, "", "a", dbits(1.5)), b"]"], "star-handoff"))
+    out.append(Case("sprintf_s", 512, [b"[", D("", ("*", 12), None, "L", "f", ldbits(1.5)), b"]"], "star-handoff"))
+    out.append(Case("sprintf_s", 512, [b"[", D("", None, ("*", 3), "L", "e", ldbits(1.5)), b"]"], "star-handoff"))
     return out
 
 
@@ -370,6 +375,9 @@ def rand_directive(rng, allow_float=True, allow_wide=True):
         conv = rng.choice("fFeEgGaA")
         ln = rng.choice(["", "", "L"])
         v = rng.choice(FVALS + [rng.uniform(-1000, 1000), rng.uniform(0, 1), rng.uniform(-1e9, 1e9), 10 ** rng.uniform(-12, 12)])
+        if conv in "aA" or ln == "L":
+            w = None if isinstance(w, tuple) else w
+            p = None if isinstance(p, tuple) else p
         return D(fl, w if not isinstance(w, int) or w < 30 else 12, p if not isinstance(p, int) or p < 18 else 6, ln, conv, ldbits(v) if ln == "L" else dbits(v))
     return D(fl, w, p, "", "d", rng.randint(-99999, 99999))
 
@@ -390,10 +398,19 @@ def gen_random(rng, tier, count):
                 items.append(d)
         if rng.random() < 0.6 or not items:
             items.append(bytes(rng.choice(b"end %.") for _ in range(rng.randint(0, 5))))
+        if any(isinstance(i, D) and i.conv in "fFeEgGaA" for i in items):
+            # the float pieces are cut out of the output between the exact renderings of the other pieces
+            for k, i in enumerate(items):
+                while isinstance(i, D) and i.conv not in "fFeEgGaA" and (dev_classes(i) or py_directive(i) is None or b"|" in py_directive(i) or b"\x00" in py_directive(i)):
+                    i = rand_directive(rng, allow_float=False, allow_wide=False)
+                items[k] = i
         c0 = Case("sprintf_s", 600, items, "random")
         exp = c0.expected()
         need = len(exp) + 1 if exp is not None else None
         fn = rng.choice(ENGINE_FNS + ["vprintf_s"])
+        dsl = [i for i in items if isinstance(i, D)]
+        if fn == "printf_s" and any(d.conv == "c" and d.ln == "l" for d in dsl[:-1]):
+            fn = "fprintf_s"      # after the frame damage printf_s fetches garbage arguments (field widths of 10^9): kept out of the random stream
         if fn in BUF_FNS:
             dm = [600]
             if need is not None and need < 590:
@@ -427,6 +444,9 @@ def gen_edges(rng, tier):
         out.append(Case("sprintf_s", 64, [RawFmt(("%." + wtxt + "d").encode(), ["i:5"])], "numeral"))
         out.append(Case("sprintf_s", 64, [RawFmt(("%-" + wtxt + "s|").encode(), ["s:6162"])], "numeral"))
     out.append(Case("sprintf_s", 64, [RawFmt(b"%*d", ["i:-2147483648", "i:5"])], "numeral"))
+    for c in out:
+        if c.origin == "numeral":
+            c.noref = True
     # %p, %b (outside the documented list: executed for memory safety and model agreement only)
     for v in [0, 1, 0x7FFDEADBEEF0, 2**64 - 1]:
         out.append(Case("sprintf_s", 64, [D("", None, None, "", "p", v)], "p"))
@@ -537,6 +557,8 @@ def float_input_class(d):
     minus, w, p = d.eff()
     c = d.conv.lower()
     big = isinstance(v, Fraction) and abs(v) > 10**9
+    if (c == "a" or d.ln == "L") and (isinstance(d.width, tuple) or isinstance(d.prec, tuple)):
+        return "star-handoff"
     if c == "a":
         return "a"
     if d.ln == "L":
@@ -582,10 +604,27 @@ def split_float_pieces(c, out):
     return list(zip(ds, m.groups()))
 
 
-def oracle(c, dc, pair_out):
+def case_class(c):
+    """input class used in signatures that are not tied to one directive"""
+    for d in c.directives():
+        if isinstance(d, D):
+            k = dev_classes(d)
+            if k:
+                return k[0]
+    for d in c.directives():
+        if isinstance(d, D) and d.conv in "fFeEgGaA":
+            return float_input_class(d)
+    return "unclassified"
+
+
+def oracle(c, dc, dm):
     """the property on one implementation observation -> [(sig, detail)]"""
     import fmt_float_oracle as ffo
     fails = []
+    if c.fn == "printf_s" and dm is not None and dm.get("why") == "fault":
+        # printf_s hands the engine `char buffer[1]`; %lc copies two bytes there.  What happens next depends on the frame layout
+        # (with gcc -O0 the va_list is hit and later arguments are fetched from the wrong place), so nothing else is judged.
+        return [("printf_s:lc:overruns-local-buffer", "%%lc stores two bytes into printf_s's one-byte local buffer; out=%r C=%r" % (unh(dc["out"])[:40], unh(dc["ref"])[:40]))]
     ret = int(dc["ret"])
     out = unh(dc["out"])
     ref = unh(dc["ref"])
@@ -611,7 +650,7 @@ def oracle(c, dc, pair_out):
             pieces = split_float_pieces(c, out)
             if pieces is None:
                 if refret >= 0 and out != ref:
-                    fails.append(("%s:float:unparsable-output" % c.fn, "got %r, C gives %r" % (out[:80], ref[:80])))
+                    fails.append(("%s:float:unparsable-output:%s" % (c.fn, case_class(c)), "got %r, C gives %r" % (out[:80], ref[:80])))
             else:
                 for d, txt in pieces:
                     minus, w, p = d.eff()
@@ -622,7 +661,7 @@ def oracle(c, dc, pair_out):
                     for t in tags[:1]:
                         fails.append(("%s:float:%s:%s" % (c.fn, t, float_input_class(d)), "%s of %s printed as %r (C: %r)" % (d.text(), float_value(d) if isinstance(float_value(d), str) else float(float_value(d)), txt, ref[:60])))
             if isbuf and ret != len(out):
-                fails.append(("%s:float:count" % c.fn, "ret=%d but %d characters stored" % (ret, len(out))))
+                fails.append(("%s:float:count:%s" % (c.fn, case_class(c)), "ret=%d but %d characters stored (a NUL inside the text)" % (ret, len(out))))
         return fails
     if not defined or refret < 0:
         # outside what C11 defines (or glibc itself fails): only memory safety and the model are checked
@@ -664,6 +703,8 @@ def projection_diff(c, dc, dm):
     if dm.get("why") in ("unmodelled",):
         return None
     isig = int(dc["sig"]) != 0
+    if c.fn == "printf_s" and dm.get("why") == "fault":
+        return None          # the two-byte copy into printf_s's `char buffer[1]`: no signal, the caller's frame is damaged (see oracle)
     if dm.get("why") == "fault" or isig:
         return None if (dm.get("why") == "fault") == isig else "fault: impl sig=%s, model %s" % (dc["sig"], dm.get("why"))
     if dm.get("why") == "stuck":
@@ -671,7 +712,11 @@ def projection_diff(c, dc, dm):
     if dm["ret"] != dc["ret"]:
         return "ret: impl %s, model %s" % (dc["ret"], dm["ret"])
     if c.fn in BUF_FNS:
-        if dm.get("cells") != dc.get("cells"):
+        if int(dc["ret"]) < 0 and not c.slack:
+            # `*dest = '\0'`: what the engine wrote before it failed stays behind the terminator (not part of the C11 projection)
+            if dm.get("cells", "")[:2] != dc.get("cells", "")[:2]:
+                return "dest[0] after failure: impl %s, model %s" % (dc.get("cells", "")[:2], dm.get("cells", "")[:2])
+        elif dm.get("cells") != dc.get("cells"):
             return "dest image: impl %s, model %s" % (dc.get("cells", "")[:80], dm.get("cells", "")[:80])
     elif int(dc["ret"]) >= 0 and dm.get("out") != dc.get("out"):
         return "stream bytes: impl %s, model %s" % (dc.get("out", "")[:80], dm.get("out", "")[:80])
@@ -783,10 +828,10 @@ def run(tier, seed, replay=None):
             if len(res.samples) < 10 and res.evaluations % 7919 == 17:
                 res.samples.append(dict(case=c.desc()[:300], harness_op=c.hline()[:400], slack=slack, impl={k: v[:200] for k, v in dc.items() if k not in ("id", "cells")},
                                         model=dm and {k: v[:200] for k, v in dm.items() if k not in ("id", "cells")}))
-            fails = oracle(c, dc, None)
+            fails = oracle(c, dc, dm)
             # statelessness
             if dc2 is not None and {k: v for k, v in dc.items() if k != "id"} != {k: v for k, v in dc2.items() if k != "id"}:
-                fails.append(("%s:depends-on-earlier-calls" % c.fn, "two runs of the same call differ: %s vs %s" % ({k: v[:60] for k, v in dc.items()}, {k: v[:60] for k, v in dc2.items()})))
+                fails.append(("%s:%sdepends-on-earlier-calls:%s" % (c.fn, "float:" if c.has_float() else "", case_class(c)), "two runs of the same call differ: %s vs %s" % ({k: v[:60] for k, v in dc.items()}, {k: v[:60] for k, v in dc2.items()})))
             # sinks: the stream variants emit what sprintf_s stores
             if c.fn in STREAM_FNS and ret >= 0:
                 j = twin.get((c.fmt(), tuple(c.args())))
@@ -798,7 +843,8 @@ def run(tier, seed, replay=None):
                         res.count("sinks", "compared")
                         if o != tw and not (b"\x00" in o and o[:o.index(b"\x00")] == tw) and c.fn != "vprintf_s":
                             if not (c.fn == "printf_s" and any(d.conv == "c" and d.val & 0xFF == 0 for d in c.directives())):
-                                fails.append(("%s:stream-differs-from-buffer" % c.fn, "stream %r, sprintf_s %r" % (o[:60], tw[:60])))
+                                lcs = [k for d in c.directives() for k in dev_classes(d) if k.startswith("lc-")]
+                                fails.append(("%s:%sstream-differs-from-buffer:%s" % (c.fn, "float:" if c.has_float() and not lcs else "", lcs[0] if lcs else case_class(c)), "stream %r, sprintf_s %r" % (o[:60], tw[:60])))
             # spec <-> glibc, spec <-> python
             diff = None
             if dm is not None and "err" not in dm:
@@ -833,7 +879,12 @@ def run(tier, seed, replay=None):
                                                      h=c.hline(), m=c.mline(), slack=slack, impl=dc, model=dm, model_predicts=agree, model_diff=diff)))
             if diff is not None and not fails:
                 res.mismatch.append(dict(kind="correspondence", property=PID, fn=c.fn, what=diff, desc=c.desc(), h=c.hline(), m=c.mline(), slack=slack, impl=dc, model=dm))
-    for x in res.mismatch[:12]:
+    seen_mm = set()
+    for x in res.mismatch:
+        kk = (x.get("fn"), re.sub(r"[0-9a-f]{6,}|-?\d+", "#", str(x.get("what")))[:60])
+        if kk in seen_mm or len(seen_mm) > 25:
+            continue
+        seen_mm.add(kk)
         log("   mismatch:", x.get("fn"), x.get("what"), "|", x.get("desc", "")[:200])
     res.extra["spec_vs_glibc_compared"] = nspec
     res.extra["cases"] = len(cases)
